@@ -9,12 +9,13 @@
     (exactly one v10 snapshot = data, meta, CRC of the newest original), CleanFinish (no old dir, tmp
     dir or plan left), NoDataLoss (at every instant a complete copy of the newest original exists).
     Negative controls: TmpThenRename, RemoveOldIfNewExists, PlanResume, ResumeToleratesDoneRename.
-(B) the same spec enumerates every crash schedule (all single crashes; all / a seeded sample of the
-    double crashes) for every store shape; each is replayed on the REAL code: generated old-format
-    stores from small real SQLite databases (plus the repository's v7.20.3 / v9.4.1 fixtures), the
-    sequence run in child processes killed at the crash point (VERIF_CRASH), partial removals of the
-    old directory applied by the driver, then clean starts; after each start snapshot.NewStore, List,
-    Open + Restore of the newest snapshot, compared with the original database, index and term.
+(B) the same spec enumerates every crash schedule for every store shape (all single crashes are
+    replayed; the double crashes in seeded order within a time budget); each is replayed on the REAL
+    code: generated old-format stores from small real SQLite databases (plus the repository's v7.20.3 /
+    v9.4.1 fixtures and an empty database), every crashing run in a child process killed at the crash
+    point (VERIF_CRASH=<point>#<k>), partial removals of the old directory applied by the driver, then
+    clean starts; after each successful start snapshot.NewStore, List, LatestIndexTerm, Open + Restore
+    of the newest snapshot, compared with the original database, index and term.
 (C) every step event of the instrumented code, every exit, the disk after every run (projection of
     the model state) and every open result are validated by TraceUpgrade.tla."""
 import concurrent.futures as cf
@@ -85,9 +86,10 @@ def to_case(c, variant, rng):
         r, lab = map_entry(e, rng)
         runs.append(r)
         labs.append(lab)
+    runlabels = list(labs)
     while labs and labs[-1] == "ok":
         labs.pop()
-    return {"kind": c["kind"], "shape": c["shape"], "variant": variant, "runs": runs,
+    return {"kind": c["kind"], "shape": c["shape"], "variant": variant, "runs": runs, "runlabels": runlabels,
             "label": "from=%s:crash=%s" % (c["kind"], "+".join(labs) or "none")}
 
 
@@ -145,7 +147,7 @@ def run(ctx):
         cases.append(k)
     for i, c in enumerate(single):               # every single-crash schedule on generated stores ...
         add(c, "gen:%d" % ((i + ctx.seed) % nvar))
-    nd_must = min(len(double), ctx.pick(30, 600))
+    nd_must = min(len(double), ctx.pick(30, 350))
     for i, c in enumerate(double[:nd_must]):     # ... a first block of double-crash schedules ...
         add(c, "gen:%d" % ((i + ctx.seed) % nvar))
     extra = []                                   # ... the single-crash schedules on the repository's fixtures / the empty database
@@ -172,7 +174,7 @@ def run(ctx):
     tr = os.path.join(ctx.scratch, "upgrade.trace.ndjson")
     vlib.write_nd(inp, cases)
     # ---------------- (B) replay on the real code
-    p = ctx.run_harness(["upgrade-run", "-cases", inp, "-out", tr, "-par", "6", "-must", str(must), "-budget", str(ctx.pick(45, 270)),
+    p = ctx.run_harness(["upgrade-run", "-cases", inp, "-out", tr, "-par", "6", "-must", str(must), "-budget", str(ctx.pick(45, 240)),
                          "-fixtures", os.path.join(vlib.REPO, "snapshot", "testdata", "upgrade")], timeout=3000)
     st = json.loads(p.stdout.strip().splitlines()[-1])
     ctx.cov["driver"] = {k: v for k, v in st.items() if k != "failures"}
@@ -189,9 +191,26 @@ def run(ctx):
                                   "%d of the %d generated double-crash schedules (seeded order, as many as fit the time budget)"
                                   % (len({(c["kind"], tuple(c["shape"])) for c in single}), ctx.pick(2, 3), n2, ndouble))
     failed = {}
+    first = {}
     for f in st["failures"]:
         key = "upgrade:%s:%s" % (f["class"], f["label"])
         failed.setdefault(f["case"], key)
+        first.setdefault(key, f["case"])
+    if first:
+        # a violation is only reported if its case, rebuilt from scratch, fails the same way again
+        again = [dict(cases[cid], id=i) for i, cid in enumerate(list(first.values())[:20])]
+        inp2 = os.path.join(ctx.scratch, "upgrade.again.ndjson")
+        vlib.write_nd(inp2, again)
+        p2 = ctx.run_harness(["upgrade-run", "-cases", inp2, "-out", os.path.join(ctx.scratch, "upgrade.again.trace.ndjson"), "-par", "4",
+                              "-fixtures", os.path.join(vlib.REPO, "snapshot", "testdata", "upgrade")], timeout=1200)
+        st2 = json.loads(p2.stdout.strip().splitlines()[-1])
+        keys2 = {"upgrade:%s:%s" % (f["class"], f["label"]) for f in st2["failures"]}
+        lost = [k for k in list(first)[:20] if k not in keys2]
+        if lost:
+            raise vlib.Undecided("failures did not reproduce on a freshly built store (harness fault?): %s" % lost)
+        ctx.cov["violations_reproduced_from_scratch"] = len(again)
+    for f in st["failures"]:
+        key = "upgrade:%s:%s" % (f["class"], f["label"])
         ctx.violation(key, "%s (case: %s store, %s, runs %s)" % (f["detail"], f["kind"], f["variant"],
                                                                   [r["crash"] + ("~partial" if r["partial"] else "") or "clean" for r in f["runs"]]), f)
     # ---------------- (C) trace validation; a rejected case is cut out and the rest is validated again
@@ -208,7 +227,7 @@ def run(ctx):
 
     def check_chunk(ci):
         cur, div, rej = chunks[ci], [], set()
-        for it in range(12):
+        for it in range(5):
             ok, at, inv, r = validate(ctx, cur, "upgrade.c%d.v%d.ndjson" % (ci, it), timeout=ctx.pick(900, 1700))
             if ok:
                 return div, rej, False
@@ -225,7 +244,7 @@ def run(ctx):
             diverged += div
             rejected_cases |= rej
             if stopped:
-                ctx.cov["trace_validation_stopped_after"] = 12
+                ctx.cov["trace_validation_stopped_after_rejections"] = 5
     ctx.cov["trace_cases_rejected"] = len(rejected_cases)
     ctx.cov["model_code_divergences"] = [{"label": d["label"], "event": d["event"].get("ev"), "invariant": d["invariant"]} for d in diverged]
     for d in diverged:
